@@ -345,6 +345,13 @@ def rpe_cli(run, case, rng, work):
                   key="cli:refusal-mismatch", argv=argv)
         run.hit("L3 refusals agreed" if got == r.kind else "L3 refusal mismatch")
         return None
+    if relation == "point_distance_error_ratio" and prec.calls and drec.data:
+        rs_, es_ = drec.data[0]
+        if all(np.array_equal(rs_.p[i], rs_.p[j]) for i, j in prec.calls[0]["pairs"]):
+            # every selected pair has a zero reference distance: no value survives; what evo does
+            # with an empty value list (it fails in the statistics) is outside the statement
+            run.hit("L3 all pairs skipped for zero reference distance (outcome not judged)")
+            return None
     if not run.check(got is None, "evo_rpe succeeds on valid input", case,
                      "evo_rpe failed with %s: %s (argv %s)" % (got, res.exc, argv),
                      key="cli:unexpected-failure", argv=argv):
